@@ -53,20 +53,6 @@ theorem PLit_zero_le (sd : ByteArray) (ws : Nat) (h : Header) (c : Cmd) (M : Int
     subst this
     rw [if_neg (by omega), if_neg hneg, e0, dec_pure_bind, if_pos (by simp), if_pos rfl]
 
-/-- a failing step under the cap. -/
-theorem After.fail_cap {sd : ByteArray} {ws : Nat} {res : Except Err Cmd × St} {lst : Bool} {B0 B : Nat}
-    {del : List UInt8} {r : Except BErr Unit × State} {e' : Err} {st' : St} (hres : res = (.error e', st'))
-    (H : B0 + st'.out.size < 2 ^ 24 →
-      ∃ e1 s1, r = (.error e1, s1) ∧ e1 ≠ .eof ∧ Inv ws s1.dict st'.out.toList del) :
-    After sd ws res lst B0 B del r := by
-  subst hres
-  unfold After
-  dsimp only
-  intro hcap
-  obtain ⟨e1, s1, rfl, he, hw⟩ := H hcap
-  obtain ⟨X, T, hX⟩ := trace_error sd e1 s1 ws _ del hw
-  exact Or.inr ⟨e1, s1, rfl, X, e1, T, he, hX⟩
-
 /-- the state after `n` more literals have been accounted for. -/
 def litDone (s1 : State) (n : Nat) : State := { s1 with insLen := s1.insLen - n, blkLen := s1.blkLen - n }
 
@@ -120,13 +106,9 @@ theorem phase_lit (hsd : sd.size = 122784) (hws : 2 ≤ ws) (cx : Cx sd ws h lst
         · exact ⟨_, hrl⟩
       obtain ⟨e'', hX⟩ := hX
       rw [BrCut.bind_err_eq hX] at chain
-      refine After.fail_cap (res_err cx.nd cx.inv0 chain) (fun hcap => ?_)
-      obtain ⟨e1, s', g1, g2, g3⟩ := hsim (fun hlt => by
-        obtain ⟨_, cl', _, _⟩ := cx.cap0
-        have a1 := tr.kL.2 (by rw [← tr.kL.1]; exact hlt)
-        have a2 := cl' (by rw [← tr.kL.1]; exact hlt)
-        omega)
-      exact ⟨e1, s', by rw [g1]; rfl, g2, g3⟩
+      obtain ⟨e1, s', g1, g2, g3⟩ := hsim
+      rw [g1]
+      exact After.fail (res_err cx.nd cx.inv0 chain) g2 g3
     · -- these literals are read on both sides
       rw [hrl] at hsim
       dsimp only at hsim
